@@ -13,6 +13,7 @@ import sys
 
 from mpv import arr
 
+ANCHORS = []   # repository functions the workload must enter (reported as anchors_reached / anchors_missed)
 LEVEL = "exploration"
 RULE = ("histories of 0-6 steps from {Program(subset/order of libraries), import library module, define Command subclass (in __main__, "
         "named like a built-in, or under a prefix-related module name), run a model} followed by a probe Program(libraries) for library "
